@@ -243,10 +243,13 @@ def check_topk(prog: Program, res: Result) -> None:
         t = g[0].test if g else None
         ok = isinstance(t, ast.Compare) and len(t.ops) == 1
         if ok:
-            l, r_ = norm(t.left), norm(t.comparators[0])
-            lens = {f"len({pts_t})", f"len({vals_t})", f"{pts_t}.shape[0]", f"{vals_t}.shape[0]", f"{pts_t}.size(0)"}
-            k_ = norm(a1) if a1 is not None else "?"
-            ok = (isinstance(t.ops[0], ast.Gt) and l in lens and r_ == k_) or (isinstance(t.ops[0], ast.Lt) and r_ in lens and l == k_)
+            # "more peaks than k" in any linear spelling: len(P) > k, k < len(P), k - len(P) < 0, ...
+            te = astq.expand_at(fi.node, t, g[0], keep=[x_ for x_ in (pts_t, vals_t) if x_])
+            cf = astq.compare_form(te)
+            lens = {f"len({pts_t})", f"len({vals_t})", f"{pts_t}.shape[0]", f"{vals_t}.shape[0]", f"{pts_t}.size(0)", f"{vals_t}.size(0)"}
+            k_ = astq.xnorm(fi.node, a1) if a1 is not None else "?"
+            k_alts = {k_, norm(a1) if a1 is not None else "?", norm(astq.expand_at(fi.node, a1, g[0])) if a1 is not None else "?"}
+            ok = cf is not None and cf[1] == ">" and len(cf[0]) == 2 and any(cf[0].get(l_) == 1.0 for l_ in lens) and any(cf[0].get(x_) == -1.0 for x_ in k_alts)
         res.ob(R, ok, fi.qualname, "cut only when there are more peaks than max_instances", f"the top-k cut is guarded by `{short(t, 40) if t is not None else 'nothing'}`", f"{fi.module.relpath}:{c.lineno}")
     res.floor(R, 6)
 
@@ -476,39 +479,41 @@ def check_offset(prog: Program, res: Result) -> None:
     res.touch(fi)
     fn = fi.node
     n = 0
-    for aug in walk_function(fn):
-        if isinstance(aug, ast.Assign) and len(aug.targets) == 1 and isinstance(aug.targets[0], ast.Name) and isinstance(aug.value, ast.BinOp) and isinstance(aug.value.op, ast.Add) \
-                and aug.targets[0].id in (norm(aug.value.left), norm(aug.value.right)) and astq.enclosing_loops(aug):
-            # off = off + c  is  off += c
-            other = aug.value.right if norm(aug.value.left) == aug.targets[0].id else aug.value.left
-            aug = ast.copy_location(ast.AugAssign(target=aug.targets[0], op=ast.Add(), value=other), aug)
-            aug._parent = getattr(aug, "_parent", None) or None
-            orig = [x for x in walk_function(fn) if isinstance(x, ast.Assign) and x.lineno == aug.lineno and norm(x.targets[0]) == aug.target.id][0]
-            aug._parent = orig._parent
-            anchor = orig
-        else:
-            anchor = aug
-        if not (isinstance(aug, ast.AugAssign) and isinstance(aug.op, ast.Add) and isinstance(aug.target, ast.Name) and astq.enclosing_loops(anchor)):
+    for st in walk_function(fn):
+        # the statement that advances a running offset inside a loop:  off += c  /  off = off + c  /  end = off + c; ...; off = end
+        if not (isinstance(st, (ast.Assign, ast.AugAssign)) and astq.enclosing_loops(st)):
             continue
-        off = aug.target.id
-        lp = astq.enclosing_loops(anchor)[-1]
-        used = [sl for sl in ast.walk(lp) if isinstance(sl, ast.Subscript) and isinstance(sl.slice, ast.Slice) and sl.slice.lower is not None and norm(sl.slice.lower) == off]
-        if not used:
+        tg = st.target if isinstance(st, ast.AugAssign) else (st.targets[0] if len(st.targets) == 1 else None)
+        if not isinstance(tg, ast.Name):
             continue
-        n += 1
+        off = tg.id
+        lp = astq.enclosing_loops(st)[-1]
         lv = sorted(astq.target_names(lp.target))
-        step = astq.expand_at(fn, aug.value, anchor, keep=lv)
+        used = [sl for sl in ast.walk(lp) if isinstance(sl, ast.Subscript) and isinstance(sl.slice, ast.Slice) and sl.slice.lower is not None and norm(sl.slice.lower) == off]
+        if not used or off in lv:
+            continue
+        if isinstance(st, ast.AugAssign):
+            if not isinstance(st.op, ast.Add):
+                continue
+            step = astq.expand_at(fn, st.value, st, keep=lv)
+        else:
+            new = astq.expand_at(fn, st.value, st, keep=lv + [off])
+            if not (isinstance(new, ast.BinOp) and isinstance(new.op, ast.Add) and off in (norm(new.left), norm(new.right))):
+                continue
+            step = astq.expand_at(fn, new.right if norm(new.left) == off else new.left, st, keep=lv)
+        n += 1
         ok = isinstance(step, ast.Subscript) and norm(step.slice) in lv
         src = (astq.expand_at(fn, step.value, lp) if isinstance(step.value, ast.Name) else step.value) if ok else None
         ok = ok and isinstance(src, ast.Call) and norm(src.func).split(".")[-1] == "bincount"
         res.ob(R, ok, fi.qualname, f"`{off}` advances by the frame's own match count",
                f"the offset `{off}` into the flattened match list advances by `{short(step, 50)}`, not by the frame's bincount: when a frame has more matches than that, "
-               "the following frames of the batch read its left-over entries", f"{fi.module.relpath}:{aug.lineno}")
+               "the following frames of the batch read its left-over entries", f"{fi.module.relpath}:{st.lineno}")
         for sl in used:
             up = astq.expand_at(fn, sl.slice.upper, enclosing_stmt(sl), keep=lv + [off]) if sl.slice.upper is not None else None
-            ok2 = isinstance(up, ast.BinOp) and isinstance(up.op, ast.Add) and off in (norm(up.left), norm(up.right)) and norm(step) in (norm(up.left), norm(up.right))
-            res.ob(R, ok2, fi.qualname, "the frame's slice is [offset : offset + count]", f"the frame's slice `{short(sl, 50)}` is not [offset : offset + its match count]",
-                   f"{fi.module.relpath}:{sl.lineno}")
+            ok2 = isinstance(up, ast.BinOp) and isinstance(up.op, ast.Add) and off in (norm(up.left), norm(up.right)) and norm(step) in (norm(up.left), norm(up.right)) \
+                and sl.lineno < st.lineno   # the slice is taken with the offset BEFORE it advances
+            res.ob(R, ok2, fi.qualname, "the frame's slice is [offset : offset + count]", f"the frame's slice `{short(sl, 50)}` is not [offset : offset + its match count], taken before "
+                   "the offset advances", f"{fi.module.relpath}:{sl.lineno}")
     res.floor(R, 1)
 
 
